@@ -306,7 +306,7 @@ def strip_function_body(src, fn):
     return src[:m.start()] + head + ";\n" + src[j + 1:]
 
 
-def native_replay(q, script, rdir, kf_excluded):
+def native_replay(q, script, rdir, kf_excluded, hang_only=False):
     """Build the same harness natively with ASan/UBSan and run it on the script."""
     os.makedirs(rdir, exist_ok=True)
     with open(os.path.join(rdir, "script.txt"), "w") as f:
@@ -358,12 +358,14 @@ def native_replay(q, script, rdir, kf_excluded):
     env = dict(os.environ)
     env["VND_SCRIPT"] = os.path.join(rdir, "script.txt")
     env["ASAN_OPTIONS"] = "detect_leaks=1:abort_on_error=0"
-    rc, out, err, to, _ = sh([exe], timeout=120, env=env)
+    rc, out, err, to, _ = sh([exe], timeout=30 if hang_only else 120, env=env)
     open(os.path.join(rdir, "replay.log"), "w").write("exit=%s\n%s\n%s" % (rc, out, err))
     with open(os.path.join(rdir, "run.sh"), "w") as f:
         f.write("#!/bin/sh\nVND_SCRIPT=%s ASAN_OPTIONS=detect_leaks=1 %s\n" % (env["VND_SCRIPT"], exe))
     if to:
-        return "confirmed", "native replay did not terminate within 120 s"
+        return "confirmed", "native replay did not terminate"
+    if hang_only and rc in (0, 77, 78, 79):
+        return "not-reproduced", out[-500:]
     if rc == 0:
         return "not-reproduced", out[-2000:]
     if rc == 77:
@@ -409,6 +411,27 @@ def run_query(q, tier, workroot, kf_open, keep=False):
         res["n_properties"] = len(results)
         res["n_success"] = n_ok
         res["witnesses_reached"] = wit_ok
+        if unwind_fail and q.replay:
+            # an unwinding assertion failed: either the bound is too small for this harness (framework problem) or the loop
+            # does not terminate.  Decide by replaying the solver's witness natively: a run that hangs is a violation.
+            upid = unwind_fail[0].split(" ")[0]
+            cmd = cbmc_cmd(q, wd) + ["--trace"]        # unwinding assertions cannot be selected with --property
+            rc2, out2, err2, to2, dt2 = sh(cmd, timeout=timeout, mem_gb=mem)
+            results2, _, _ = parse_cbmc_json(out2) if not to2 else (None, {}, [])
+            trace = None
+            for r in results2 or []:
+                if r.get("property") == upid and r.get("status") == "FAILURE":
+                    trace = r.get("trace")
+            if trace:
+                script = extract_script(trace)
+                tag = hashlib.sha1((q.name + str(script) + upid).encode()).hexdigest()[:10]
+                rdir = os.path.join(VERIF, "replays", "%s-%s" % (q.name, tag))
+                status, detail = native_replay(q, script, rdir, kf_excl, hang_only=True)
+                if status == "confirmed":
+                    res.update(verdict="violation", replay_dir=rdir, replay_status="confirmed", script=script[:400],
+                               replay_detail="native replay does not terminate: " + detail[-300:],
+                               failed=[{"property": upid, "description": "loop does not terminate (unwinding assertion failed and the native replay of the witness hangs)", "location": {}}])
+                    return res
         if unwind_fail:
             res.update(verdict="bound-too-small", detail=unwind_fail[:10])
             return res
